@@ -1,6 +1,8 @@
 """Structured program generation (guided by the reference Layouter's own state) and rendering to text."""
 from __future__ import annotations
 
+import copy
+
 from hypothesis import strategies as st
 
 from . import exprs, isagen, refmodel as R
@@ -298,7 +300,15 @@ class Builder:
     # -- item makers -------------------------------------------------------------------------------
     def instr(self, refs=True):
         d = self.draw
-        kind = d(st.sampled_from(['nop', 'ldi', 'w12', 'jmp', 'jmp', 'mov', 'mov', 'ldx']))
+        kind = d(st.sampled_from(['nop', 'ldi', 'w12', 'jmp', 'jmp', 'mov', 'mov', 'ldx', 'br']))
+        if kind == 'br':
+            # a relative branch to a label defined shortly before (the same text encodes differently at each address)
+            recent = [ln['item']['name'] for ln in self.lay.lines[-12:]
+                      if ln['kind'] == 'label' and not ln['item']['name'].startswith(('.', '_'))
+                      and ln['zone'] == self.zone() and 0 <= self.cursor() - ln['addr'] <= 100]
+            if refs and recent and self.dead is None:
+                return {'t': 'instr', 'mn': 'br', 'ops': [{'k': 'expr', 'e': ['lab', d(st.sampled_from(recent))]}]}
+            kind = 'nop'
         if kind == 'ldx':
             return {'t': 'instr', 'mn': 'ldx', 'ops': [{'k': d(st.sampled_from(['idxreg', 'indidx'])), 'r': 'hl', 'deco': None,
                                                        'idx': {'k': 'reg', 'r': d(st.sampled_from(['a', 'x'])), 'deco': None}}]}
@@ -457,9 +467,13 @@ def general_program(draw, cfg, max_steps=30, extra=(), disable=()):
         elif choice == 'local' and b.lay.cur['region'] is not None:
             free = [n for n in LOCAL_LABELS if n not in local_defined]
             if free:
-                n = d(st.sampled_from(free))
+                n = d(st.sampled_from(free[:2]))
                 b.add({'t': 'label', 'name': n})
                 local_defined.add(n)
+                if room >= 8 and d(st.booleans()):
+                    # the same probe text recurs in every region that defines this local name
+                    b.add({'t': 'data', 'd': '.2byte', 'vals': [['lab', n]]})
+                    feats.add('local-label-probe')
         elif choice == 'flabel':
             free = [n for n in FILE_LABELS if n not in b.defined]
             if free:
@@ -472,6 +486,11 @@ def general_program(draw, cfg, max_steps=30, extra=(), disable=()):
             if it['mn'] == 'mov':
                 feats.add('variable-size')
             b.add(it)
+            if it['mn'] == 'br' and b.room() >= 8 and d(st.booleans()):
+                # the same statement text again, a few bytes further on: other address, other offset byte
+                b.add({'t': 'instr', 'mn': 'nop', 'ops': []})
+                b.add(copy.deepcopy(it))
+                feats.add('same-relative-statement-twice')
         elif choice == 'probe' and room >= 24:
             b.add(b.probe())
         elif choice == 'fill' and room >= 2:
